@@ -95,6 +95,14 @@ def attribution_table(rng):
             out.append(([("txn", "GroupIndex"), ("int", k), ("+",), ("gtxns", field)] + tail, "rel", k, field))
             out.append(([("int", k), ("txn", "GroupIndex"), ("+",), ("gtxns", field)] + tail, "rel", k, field))
             out.append(([("txn", "GroupIndex"), ("pushint", k), ("-",), ("gtxns", field)] + tail, "rel", -k, field))
+    # index arithmetic that is none of the three forms: the member is an absolute one (a+b, a+scratch=a), so NO offset
+    # context and no other absolute context may pick the check up
+    for field in ("RekeyTo", "Fee"):
+        tail = checks[field]
+        for a, b in ((1, 1), (2, 0), (0, 1)):
+            out.append(([("int", a), ("int", b), ("+",), ("gtxns", field)] + tail, "only-abs", a + b, field))
+            out.append(([("int", a + b), ("load", 250), ("+",), ("gtxns", field)] + tail, "only-abs", a + b, field))
+            out.append(([("load", 250), ("int", a + b), ("+",), ("gtxns", field)] + tail, "only-abs", a + b, field))
     cases = []
     for cond, fam, idx, field in out:
         for consumer in ("assert", "bz"):
@@ -106,7 +114,7 @@ def attribution_table(rng):
                 leaf = len(cond) + 1
             cases.append((prog, 6, ["attribution_case", "expect_attr=%s:%d:%s@%d" % (fam, idx, field, leaf + 2)]))
     rng.shuffle(cases)
-    return cases[:160]
+    return cases[:200]
 
 
 def evaluate_attribution(case, ctr):
@@ -121,6 +129,18 @@ def evaluate_attribution(case, ctr):
             if not (b.entry_instr.line <= line <= b.exit_instr.line):
                 continue
             ctx = case.function.transaction_context(b)
+            if fam == "only-abs":
+                ctr["attribution_negative_cases"] += 1
+                others = [("offset %+d" % k, ctx.relative_context(k)) for k in range(-15, 16) if k != 0]
+                others += [("absolute index %d" % i, ctx.absolute_context(i)) for i in range(16) if i != idx]
+                for nm, sub in others:
+                    hit = (not sub.rekeyto.any_addr) if field == "RekeyTo" else (sub.max_fee_unknown or sub.max_fee < frag.U64)
+                    if hit:
+                        viols.append({"kind": "read-attributed-to-wrong-member", "key": (fam, idx, field, nm), "ckey": "attribution",
+                                      "what": "a check of %s of the member at absolute index %d (index computed by arithmetic that is none of the "
+                                              "recognised forms) is recorded for the member at %s (block at line %d)" % (field, idx, nm, line)})
+                        break
+                continue
             sub = ctx.absolute_context(idx) if fam == "abs" else ctx.relative_context(idx)
             ctr["attribution_cases"] += 1
             if field == "RekeyTo":
